@@ -65,6 +65,8 @@ inductive V where
                                                -- a MongoDB collection as a data migration sees it: the documents `find()`
                                                -- yields, and the `replace_one(_id, doc)` calls made so far
   | mproc (f : MongoMig.MDoc → Except MongoMig.MErr MongoMig.MDoc)     -- the per-document processor of a migration step
+  | ptext (ps : List Piece)          -- a regular-expression text under construction in `compile_regex`: escaped
+                                               -- literal text and parenthesised segments, in order
   | pager (ga : Int → Int → Option Store.St)   -- any storage, seen through its `get_all(limit, offset)` (`none`: it raises)
   | alog (audits : List AuditRec) (decisions : List Bool)
                                                -- what the guard writes: the audit records and the decision-log records
@@ -97,6 +99,7 @@ def truth : V → Bool
   | .eworld _ _ _ _ _ => true
   | .alog _ _ => true
   | .pager _ => true
+  | .ptext ps => !ps.isEmpty
   | .mcoll _ _ => true
   | .mproc _ => true
   | .sworld _ _ _ => true
@@ -1091,6 +1094,65 @@ def ipInNetM (a n : M) (handler : M) : M :=
          | .ok v' net p => ofBool (Cidr.contains v' net p v ip)
          | _ => handler)
     | .py (.str av), _ => (match Cidr.parseAddr av with | Option.none => handler | some _ => handler)
+    | _, _ => raiseM
+
+/-! ### `compile_regex`: slicing, index arithmetic, and the pattern text kept symbolic -/
+
+/-- `a * b` / `a // b` on integers (`b > 0`) -/
+def mulM (a b : M) : M :=
+  bindM a fun x => bindM b fun y => match x, y with
+    | .py (.int m), .py (.int n) => .ok (.py (.int (m * n)))
+    | _, _ => raiseM
+def floordivM (a b : M) : M :=
+  bindM a fun x => bindM b fun y => match x, y with
+    | .py (.int m), .py (.int n) => if 0 < n then .ok (.py (.int (m / n))) else raiseM
+    | _, _ => raiseM
+
+/-- `s[a:b]` / `s[a:]` on a string, for non-negative bounds -/
+def strSliceM (s lo hi : M) : M :=
+  bindM s fun x => bindM lo fun a => bindM hi fun b => match x, a, b with
+    | .py (.str cs), .py (.int i), .py (.int j) =>
+      if 0 ≤ i && 0 ≤ j then .ok (.py (.str (TagParser.slice cs i.toNat j.toNat))) else raiseM
+    | _, _, _ => raiseM
+def strSliceFromM (s lo : M) : M :=
+  bindM s fun x => bindM lo fun a => match x, a with
+    | .py (.str cs), .py (.int i) => if 0 ≤ i then .ok (.py (.str (cs.drop i.toNat))) else raiseM
+    | _, _ => raiseM
+
+/-- `xs[::2]` on a list -/
+def everyOther : List PyVal → List PyVal
+  | [] => []
+  | [x] => [x]
+  | x :: _ :: rest => x :: everyOther rest
+def stepSlice2M (a : M) : M :=
+  bindM a fun x => match x with
+    | .py (.list xs) => .ok (.py (.list (everyOther xs)))
+    | _ => raiseM
+
+/-- `re.escape(raw)`: the text that matches `raw` literally -/
+def reEscapeM (a : M) : M :=
+  bindM a fun x => match x with
+    | .py (.str cs) => .ok (.ptext [Piece.lit cs])
+    | _ => raiseM
+
+/-- `pattern + '%s(%s)' % (re.escape(raw), part)`: the text so far, the escaped literal, the segment in a group -/
+def ptGroupM (pattern esc part : M) : M :=
+  bindM pattern fun p => bindM esc fun e => bindM part fun x => match p, e, x with
+    | .py (.str []), .ptext l, .py (.str seg) => .ok (.ptext (l ++ [Piece.seg seg]))
+    | .ptext ps, .ptext l, .py (.str seg) => .ok (.ptext (ps ++ l ++ [Piece.seg seg]))
+    | _, _, _ => raiseM
+
+/-- `re.compile('^%s$' % part)`: the segment compiled on its own (only a failure matters: `re.error`) -/
+def reCompileSegM (part : M) : M :=
+  bindM part fun x => match x with
+    | .py (.str seg) => (match parsePattern seg with | .ok r _ => .ok (.pattern r) | _ => raiseM)
+    | _ => raiseM
+
+/-- `re.compile('^%s%s$' % (pattern, re.escape(raw)))`: the whole element -/
+def reCompileFullM (pattern esc : M) : M :=
+  bindM pattern fun p => bindM esc fun e => match p, e with
+    | .py (.str []), .ptext l => (match piecesRe l with | .ok r _ => .ok (.pattern r) | _ => raiseM)
+    | .ptext ps, .ptext l => (match piecesRe (ps ++ l) with | .ok r _ => .ok (.pattern r) | _ => raiseM)
     | _, _ => raiseM
 
 /-! ### generators: `while True` with a bound on the rounds, the abstract `get_all` of a storage -/
